@@ -12,17 +12,21 @@ From Coq Require Import NArith ZArith.
 From VFS Require Import Core.Types Core.Prog Core.Calls Base.MemFS Base.Handles Base.Store Layer.VfsPath Layer.Overlay
   Proofs.Leaves Proofs.MemProofs Proofs.ConcProofs Proofs.OvlProofs Proofs.OvlList Proofs.OvlLife.
 
-(** while the marker of a path is present the path is absent from exists, metadata, open_file and
-    read_dir - for every handler (so for all layer contents and all later histories that keep the marker) *)
-Theorem C10_marker_hides : forall (S : Type) (h : handler brep S) top lower p s s1,
-  p <> [] -> run h (vp_exists (fst top) (whiteout_path top p)) s = (s1, Ok true) ->
+(** while the marker of a path is present - and the write layer does not hold the path itself: an entry
+    of the write layer is newer than a marker (repair a7ee48b) - the path is absent from exists,
+    metadata, open_file and read_dir, whatever the lower layers contain - for every handler (so for
+    all layer contents and all later histories that keep the marker) *)
+Theorem C10_marker_hides : forall (S : Type) (h : handler brep S) top lower p s s0 s1,
+  p <> [] ->
+  run h (vp_exists (fst top) (write_path top p)) s = (s0, Ok false) ->
+  run h (vp_exists (fst top) (whiteout_path top p)) s0 = (s1, Ok true) ->
   run h (ovl_exists top lower p) s = (s1, Ok false) /\
   run h (ovl_metadata top lower p) s = (s1, fail ENotFound) /\
   run h (ovl_impl top lower (COpenFile p)) s = (s1, fail ENotFound) /\
   run h (ovl_read_dir top lower p) s = (s1, fail ENotFound).
 Proof.
-  intros S h top lower p s s1 Hp H. repeat split.
-  - now apply marker_exists. - now apply marker_metadata. - now apply marker_open_file. - now apply marker_read_dir.
+  intros S h top lower p s s0 s1 Hp Hu H. repeat split.
+  - eapply marker_exists; eauto. - eapply marker_metadata; eauto. - eapply marker_open_file; eauto. - eapply marker_read_dir; eauto.
 Qed.
 
 (** a marker belongs to exactly one path: removing one entry never hides another *)
@@ -61,7 +65,7 @@ Proof. exact remove_lower_file_sets_marker. Qed.
 
 (** and from then on the overlay does not see the file although the lower layer still has it *)
 Theorem C10_removed_is_absent : forall lg ft (s1 s0' : gmap (list (list N)) memfile) (hs' : list hstate) (p : path),
-  p <> [] -> is_Some (s0' !! whiteout_path (v0, []) p) ->
+  p <> [] -> is_Some (s0' !! whiteout_path (v0, []) p) -> s0' !! p = None ->
   run bhandler (ovl_exists (v0, []) [(v1, [])] p) (mstore2 s0' s1 hs' lg ft) = (mstore2 s0' s1 hs' lg ft, Ok false) /\
   run bhandler (ovl_metadata (v0, []) [(v1, [])] p) (mstore2 s0' s1 hs' lg ft) = (mstore2 s0' s1 hs' lg ft, fail ENotFound).
 Proof. exact removed_file_is_absent. Qed.
